@@ -11,10 +11,12 @@ import (
 	"errors"
 	"fmt"
 	"io"
+	iofs "io/fs"
 	"os"
 	"path"
 	"path/filepath"
 	"sort"
+	"strings"
 	"sync"
 	"syscall"
 	"time"
@@ -470,10 +472,32 @@ func cmdPrefix(args []string, w *bufio.Writer) {
 				defer close(fd)
 				defer func() { recover() }()
 				pr.Fetch = r2.fetchAll()
+				// the same entries read through the filesystem (Open + Read until EOF) and through Operations.Restore
+				for _, f := range pr.Fetch {
+					name, _ := f["name"].(string)
+					if name == "" || f["rec"] == nil {
+						continue
+					}
+					p := name
+					if !strings.HasPrefix(p, "/") {
+						p = "/" + p
+					}
+					data, rerr := r2.readAll(in2.s, p)
+					e := Entry{Blob: -2}
+					r2.content(&e, data, rerr)
+					f["fs_len"], f["fs_sha"], f["fs_err"] = e.Len, e.Sha, e.Err
+					var buf bytes.Buffer
+					oerr := in2.ro.Restore(
+						func(path string, mode iofs.FileMode) (io.WriteCloser, error) { return nopWC{&buf}, nil },
+						func(path string, mode iofs.FileMode) error { return nil }, p, "", true)
+					e2 := Entry{Blob: -2}
+					r2.content(&e2, buf.Bytes(), oerr)
+					f["op_len"], f["op_sha"], f["op_err"] = e2.Len, e2.Sha, e2.Err
+				}
 			}()
 			select {
 			case <-fd:
-			case <-time.After(5 * time.Second):
+			case <-time.After(10 * time.Second):
 				pr.Fetch = []map[string]interface{}{{"name": "*", "err": "HANG"}}
 			}
 			out[i] = pr
